@@ -797,5 +797,9 @@ for _p in ("C02", "C04"):
 PROPS["C11"]["rules"] = PROPS["C11"]["rules"] + [rules_ann.rule_listing_end_latched]
 PROPS["C11"]["explanation"] += " (LISTEND) the end of a DFAN file-annotation listing is latched in a flag that every read from the saved next-reference tests."
 
+for _p in ("C20", "C13"):
+    PROPS[_p]["rules"] = PROPS[_p]["rules"] + [rules_limits.rule_narrowed_ref_bounded]
+    PROPS[_p]["explanation"] += " (NARROWREF) an int32 id parameter is compared with MAX_REF before it is narrowed to uint16 for an instance look-up."
+
 NOT_APPLICABLE = {}
 
